@@ -1,4 +1,5 @@
 import ClusterVerif.Spec.C09
+import ClusterVerif.Gen.C09
 import Driver.Parse
 /-!
 Case lines of C09.
@@ -171,17 +172,12 @@ def answerHistory (ws : List String) : String :=
     let failed := dedupS (((clauses c.input c.orc c.out).filter (fun x => !x.2)).map (·.1))
     let model := run c.input c.orc
     let tags := sortS (dedupS (failTags c.input c.orc c.out))
-    -- every failing instance carries the signature of a recorded finding (and no other clause fails)
-    let onlySigned := !tags.isEmpty && tags.all (· == "checkall-invalid") &&
-      failed.all (fun f => ["expired_reported", "stale_forgotten"].contains f)
-    if !failed.isEmpty && !(onlySigned && !sameAll model c.out) then
+    if !failed.isEmpty then
       "propfail " ++ ",".intercalate failed ++ " " ++ showArms (arms c) ++
         (if tags.isEmpty then "" else " sig=" ++ ",".intercalate tags)
-    else if !failed.isEmpty then
-      -- a signed failure is only a recorded finding when the model behaves exactly the same;
-      -- here it does not: report the disagreement (the tie is broken), not the recorded failure
-      "diff " ++ showArms (arms c) ++ " signed=" ++ ",".intercalate tags ++
-        " model=" ++ " ".intercalate ((model.map showObs).filter (· != ""))
+    else if c.input.maxA != Gen.maxAlertThreshold then
+      -- the harness reports the running package's MaxAlertThreshold; the theorems are about the generated one
+      "diff " ++ showArms (arms c) ++ " model=max-alert-threshold-" ++ toString Gen.maxAlertThreshold
     else if !sameAll model c.out then
       "diff " ++ showArms (arms c) ++ " model=" ++ " ".intercalate ((model.map showObs).filter (· != ""))
     else
